@@ -339,14 +339,14 @@ UNI_OTHER_FLOOR = {
 BULK_HISTORIES = {'quick': 1000, 'thorough': 60000}
 BULK_REUSE_OPS = {'quick': 9, 'thorough': 12}
 BULK_ENUM_ROUNDS = {'quick': 2, 'thorough': 12}
-# Floors (about 50% of the minimum measured on the unchanged tree, quick: VERIF_SEED 0-5).  Per START KIND (empty, dict,
+# Floors (about 50% of the minimum measured on the unchanged tree; quick: VERIF_SEED 0-5, thorough: seed 0).  Per START KIND (empty, dict,
 # pairs, parsed-str, parsed-bytes, parsed-lines, iter, lazy - the emptied object is the start object itself, not a copy
 # of it): removal that emptied it -> (operations addressing a former name afterwards, re-assignments of a former name).
 # The enumerated cases alone give every start kind >= 48 / 14 (clear) and >= 45 / 10 (popitem) in every seed.
 BULK_START_KINDS = ('empty', 'dict', 'pairs', 'parsed-str', 'parsed-bytes', 'parsed-lines', 'iter', 'lazy')
 BULK_ORIGIN_FLOOR = {
     'quick': {'clear': (82, 37), 'popitem': (37, 10), 'pop': (44, 12), 'del': (120, 26)},
-    'thorough': {'clear': (4200, 2300), 'popitem': (2200, 1000), 'pop': (3500, 1100), 'del': (11000, 2700)},
+    'thorough': {'clear': (4200, 2200), 'popitem': (2200, 1000), 'pop': (3500, 1100), 'del': (11000, 2700)},
 }
 # per operation kind: run on an object that has been emptied by a removal (after-emptied) / while it is empty (on-emptied)
 BULK_OP_FLOOR = {
@@ -362,7 +362,7 @@ BULK_OP_FLOOR = {
                                    'setdefault': 21000, 'sort': 40000, 'update': 24000},
                  'on-emptied': {'after': 58000, 'before': 60000, 'clear': 2300, 'copy': 23000, 'cycle': 15000,
                                 'del': 58000, 'first': 48000, 'get': 12000, 'in': 9800, 'last': 48000, 'pop': 14000,
-                                'popitem': 6400, 'reinit': 1300, 'set': 92000, 'setdefault': 9000, 'sort': 19000,
+                                'popitem': 6400, 'reinit': 1300, 'set': 92000, 'setdefault': 8900, 'sort': 18000,
                                 'update': 12000}},
 }
 # a former name addressed again: per operation role x (same spelling as before the removal | another spelling)
@@ -386,18 +386,22 @@ BULK_OTHER_FLOOR = {
               'bulk:ghost:reparse-source-observed-right-after-other-object-emptied': 450,
               'ok:clear': 500, 'ok:popitem': 600, 'ok:reinit': 130, 'fail:popitem-empty': 99},
     'thorough': {'bulk:emptied-by:clear': 19000, 'bulk:emptied-by:popitem': 11000, 'bulk:emptied-by:pop': 25000,
-                 'bulk:emptied-by:del': 110000, 'bulk:emptied-by:reinit': 7800,
+                 'bulk:emptied-by:del': 110000, 'bulk:emptied-by:reinit': 7700,
                  'bulk:reassign-former:same': 57000, 'bulk:reassign-former:variant': 80000,
                  'bulk:after-emptied:assign-fresh': 63000,
                  'bulk:ghost:copy-observed-after-other-object-emptied': 17000,
                  'bulk:ghost:original-observed-after-other-object-emptied': 17000,
                  'bulk:ghost:reinit-source-observed-after-other-object-emptied': 1300,
                  'bulk:ghost:reparse-source-observed-after-other-object-emptied': 25000,
+                 'bulk:ghost:copy-observed-right-after-other-object-emptied': 24000,
+                 'bulk:ghost:original-observed-right-after-other-object-emptied': 27000,
+                 'bulk:ghost:reinit-source-observed-right-after-other-object-emptied': 1400,
+                 'bulk:ghost:reparse-source-observed-right-after-other-object-emptied': 38000,
                  'ok:clear': 21000, 'ok:popitem': 30000, 'ok:reinit': 9300, 'fail:popitem-empty': 6600},
 }
 BULK_MONITOR_FLOOR = {
     'quick': {'M.emptied': 8600, 'M.after-emptied': 16000, 'M.ghost.after-emptied': 2200},
-    'thorough': {'M.emptied': 530000, 'M.after-emptied': 1000000, 'M.ghost.after-emptied': 62000},
+    'thorough': {'M.emptied': 530000, 'M.after-emptied': 1000000, 'M.ghost.after-emptied': 150000},
 }
 # the tolerated-unspecified probes are a fixed list run by every shard: their floors (pairs x 2 classes = one
 # shard's worth, built below) only say "they ran", never anything about their outcome
